@@ -509,7 +509,81 @@ def tlc_trace(ctx, spec, cfg, trace, timeout=900, extra_env=None, chunk=8000):
     for k, n in counts.items():
         ctx.cov["predicates"][k] = ctx.cov["predicates"].get(k, 0) + n
     ctx.log("TLC trace %s: %d lines, %d violation records" % (spec, total_lines, len(viol)))
+    if os.environ.get("VERIF_SELFTEST") and not getattr(ctx, "_in_selftest", False):
+        ctx._in_selftest = True
+        try:
+            _binding_selftest(ctx, spec, cfg, chunks[0], len([v for v in viol if v.get("chunk") == 0]), timeout, extra_env)
+        finally:
+            ctx._in_selftest = False
     return viol
+
+
+def _binding_selftest(ctx, spec, cfg, lines, base_viol, timeout, extra_env):
+    """Demonstration that the trace specification is bound to what the driver recorded: single recorded fields
+    of the first chunk are corrupted, one at a time (a boolean flipped, a number moved, a string replaced, an
+    array emptied or doubled), and TLC must notice -- more violation records than on the genuine trace, or a
+    rejected trace.  Prints one SELFTEST line per trace specification; never part of a verdict."""
+    import json as _json
+    import random as _random
+    rng = _random.Random(ctx.seed)
+    recs = [(_i, _json.loads(l)) for _i, l in enumerate(lines)]
+    cands = []
+    for i, e in recs:
+        if e.get("ev") == "reset":
+            continue
+        for k, v in e.items():
+            if k in ("ev", "t", "sig", "seq"):
+                continue
+            cands.append((i, k))
+    rng.shuffle(cands)
+    seen_fields, tried = {}, 0
+    for i, k in cands:
+        ev = recs[i][1].get("ev")
+        if seen_fields.get((ev, k), 0) >= 4:      # a field is tried on up to four different lines
+            continue
+        seen_fields[(ev, k)] = seen_fields.get((ev, k), 0) + 1
+        if tried >= int(os.environ.get("VERIF_SELFTEST_TRIES", "40")):
+            break
+        e = dict(recs[i][1])
+        v = e[k]
+        if isinstance(v, bool):
+            e[k] = not v
+        elif isinstance(v, int):
+            e[k] = v + 1 if v >= 0 else v - 1
+        elif isinstance(v, str):
+            e[k] = "none" if v != "none" else "corrupted"
+        elif isinstance(v, list):
+            e[k] = [] if v else None
+            if e[k] is None:
+                continue
+        else:
+            continue
+        tried += 1
+        mut = list(lines)
+        mut[i] = _json.dumps(e)
+        pth = os.path.join(ctx.work, "selftest-%s-%d.ndjson" % (spec, tried))
+        with open(pth, "w") as fh:
+            fh.write("\n".join(mut) + "\n")
+        env = {"VERIF_TRACE": pth}
+        if extra_env:
+            env.update(extra_env)
+        res = run_tlc(ctx, spec, cfg, workers=1, extra_env=env, timeout=timeout, quiet_ok=True)
+        os.remove(pth)
+        rep = res.tag("VERIF_VIOL")
+        if res.rc != 0 or not rep:
+            print("SELFTEST spec=%s: corrupting %s.%s on line %d (%r -> %r): trace rejected by TLC" % (spec, ev, k, i + 1, v, e[k]))
+            ctx.selftest = getattr(ctx, "selftest", []) + [(spec, True)]
+            return
+        last = rep[-1]
+        nv = len(last[0]) if isinstance(last[0], list) else 0
+        if nv > base_viol:
+            what = sorted({r.get("pred", "") for r in last[0]})
+            print("SELFTEST spec=%s: corrupting %s.%s on line %d (%r -> %r): %d more violation record(s) [%s]" %
+                  (spec, ev, k, i + 1, v, e[k], nv - base_viol, ", ".join(what)[:200]))
+            ctx.selftest = getattr(ctx, "selftest", []) + [(spec, True)]
+            return
+    print("SELFTEST spec=%s: none of %d single-field corruptions was noticed" % (spec, tried))
+    ctx.selftest = getattr(ctx, "selftest", []) + [(spec, False)]
 
 
 # ---------------------------------------------------------------------------------------------
@@ -621,6 +695,8 @@ def finish(ctx, level, rule, distinct_nontrivial, exhaustive=False, explanation=
           "notes": ctx.notes}
     # evidence/ describes runs against /repo only; a run pointed elsewhere (VERIF_REPO) writes under build/
     evdir = os.path.join(ROOT, "evidence") if REPO == "/repo" else os.path.join(BUILD, "evidence-other-tree")
+    if os.environ.get("VERIF_SELFTEST"):
+        evdir = os.path.join(BUILD, "evidence-selftest")   # a demonstration run does not replace the evidence
     os.makedirs(evdir, exist_ok=True)
     with open(os.path.join(evdir, ctx.prop + ".json"), "w") as fh:
         json.dump(ev, fh, indent=1, sort_keys=True)
